@@ -140,9 +140,9 @@ func (c17) Exec(t *testing.T, c *Case, replay []int) *Outcome {
 			ne = c17MaxEntries
 		}
 		type regRec struct {
-			mask         uint8
-			inv, ret     int64 // registration
-			uinv, uret   int64 // unregistration (0 = not yet)
+			mask       uint8
+			inv, ret   int64 // registration
+			uinv, uret int64 // unregistration (0 = not yet)
 		}
 		type cbRec struct {
 			entry  int
